@@ -105,7 +105,28 @@ func evalArg(root map[string]any, at, arg any) (val any) {
 			}
 		}
 	default:
-		val = arg
+		val = dupLiteral(arg)
 	}
 	return val
+}
+
+// dupLiteral returns a copy of a literal list or map of a plan so that what a
+// plan hands out is never the plan's own data: a later set on the result
+// must not edit the plan. Other values are returned as they are.
+func dupLiteral(v any) any {
+	switch tv := v.(type) {
+	case []any:
+		dup := make([]any, len(tv))
+		for i, m := range tv {
+			dup[i] = dupLiteral(m)
+		}
+		return dup
+	case map[string]any:
+		dup := make(map[string]any, len(tv))
+		for k, m := range tv {
+			dup[k] = dupLiteral(m)
+		}
+		return dup
+	}
+	return v
 }
